@@ -2633,7 +2633,7 @@ def _from_arrow(
                     parameters={"__array__": "categorical"},
                 ).simplify()
             else:
-                return out
+                return ak.layout.UnmaskedArray(out)
             # RETURNED because 'index' has already been offset-corrected.
 
         elif isinstance(tpe, pyarrow.lib.StructType):
